@@ -377,6 +377,18 @@ func (o *oracles) compareRestart(st *manager.VerifState, v *ViewSig, g map[strin
 			}
 		}
 	}
+	// the stream count must cover every visible stream (ids are dense)
+	maxID := int64(-1)
+	for id := range got {
+		if int64(id) > maxID {
+			maxID = int64(id)
+		}
+	}
+	if int64(st.NextStreamID) < maxID+1 {
+		if o.violate("restart-streams", "stream-count", fmt.Sprintf("%s: after restart the service counts %d streams but stream %d is visible", what, st.NextStreamID, maxID)) {
+			return
+		}
+	}
 	// 3. tags converge to the correct sets
 	if !settled {
 		o.s.res.Count("c12_clean_restart_checks", 1)
